@@ -158,7 +158,7 @@ func run(c *vf.Ctx) {
 	k.runSpace(sp)
 
 	// ---------- random sub-space ----------
-	nh := c.N(12, 300)
+	nh := c.N(12, 100)
 	var rmu sync.Mutex
 	vf.Parallel(nh, workers, func(i int) {
 		r := c.Rand("hist", i)
@@ -189,8 +189,8 @@ func run(c *vf.Ctx) {
 	})
 
 	c.Extra("git_invocations", gitx.Calls.Load())
-	c.Floor("queries evaluated", c.Counter("q_isanc")+c.Counter("q_mergebase")+c.Counter("q_indep")+c.Counter("q_ff"), c.N(150000, 3000000))
-	c.Floor("git confirmations", c.Counter("git_confirmations"), c.N(300, 3000))
+	c.Floor("queries evaluated", c.Counter("q_isanc")+c.Counter("q_mergebase")+c.Counter("q_indep")+c.Counter("q_ff"), c.N(130000, 3000000))
+	c.Floor("git confirmations", c.Counter("git_confirmations"), c.N(300, 1000))
 	c.Floor("ff queries with a shallow boundary", c.Counter("q_ff_shallow"), c.N(5000, 100000))
 	c.Floor("queries with skewed or tied times", c.Counter("q_skewed_or_ties"), c.N(50000, 1000000))
 	c.Floor("multi-merge-base answers", c.Counter("mb_multi"), 50)
@@ -386,10 +386,16 @@ func (k *checker) runRandom(sp *space, r *rand.Rand) {
 	}
 	defer repo.Close()
 	v := &view{sp: sp, repo: repo, commits: map[int]*object.Commit{}}
+	t0 := time.Now()
 	k.pureQueries(v, 0, r)
 	n := sp.m.Comps[0].N()
+	t1 := time.Now()
+	var tff time.Time
+	defer func() {
+		fmt.Printf("phase random %s n=%d pure %.1fs ff %.1fs confirm %.1fs\n", sp.name, n, t1.Sub(t0).Seconds(), tff.Sub(t1).Seconds(), time.Since(tff).Seconds())
+	}()
 	// FF with random shallow sets
-	nsh := 6
+	nsh := 3 // filesystem-backed Merge costs two ref writes per query: keep this part small
 	for s := 0; s < nsh; s++ {
 		var sh uint64
 		if s > 0 {
@@ -400,11 +406,12 @@ func (k *checker) runRandom(sp *space, r *rand.Rand) {
 		if !k.setShallow(v, 0, sh) {
 			return
 		}
-		for q := 0; q < 40; q++ {
+		for q := 0; q < 16; q++ {
 			k.ffQuery(v, 0, r.Intn(n), r.Intn(n), sh)
 		}
 	}
 	k.setShallow(v, 0, 0)
+	tff = time.Now()
 	k.confirmAll(sp)
 }
 
@@ -581,9 +588,11 @@ func (k *checker) ffQuery(v *view, ci, old, nw int, sh uint64) {
 	oldH := plumbing.NewHash(sp.ids[off+old])
 	newH := plumbing.NewHash(sp.ids[off+nw])
 	master := plumbing.ReferenceName("refs/heads/master")
-	if err := v.repo.Storer.SetReference(plumbing.NewHashReference(master, oldH)); err != nil {
-		c.Broken("SetReference: %v", err)
-		return
+	if cur, err := v.repo.Storer.Reference(master); err != nil || cur.Hash() != oldH {
+		if err := v.repo.Storer.SetReference(plumbing.NewHashReference(master, oldH)); err != nil {
+			c.Broken("SetReference: %v", err)
+			return
+		}
 	}
 	var merr error
 	p, st := vf.Catch(func() {
@@ -635,7 +644,7 @@ func (k *checker) screen(q query, agree bool) {
 	if q.Space != "exh" {
 		every = 997
 	} else if !k.c.Quick() {
-		every = 1811
+		every = 6007
 	}
 	if sampled(every, q.Space, q.Comp, q.Kind, q.Args, q.Shallow) {
 		q.sample = true
@@ -670,7 +679,7 @@ func (k *checker) confirmAll(sp *space) {
 	})
 	// Cap git confirmations per finding key (a known mechanism can produce thousands of disagreements; each
 	// key still gets its deterministic share, and only git-confirmed disagreements are ever reported).
-	capPerKey := c.N(25, 300)
+	capPerKey := c.N(25, 100)
 	if sp.name != "exh" {
 		capPerKey = 2
 	}
